@@ -105,6 +105,13 @@ def run(ctx):
                     if strip(pl0[2][0]) != ("field", me, "SComplex.0") or strip(pl0[2][1]) != mp:
                         ok, why = False, "the children become %s" % show(pl0)[:80]
                     delegated = True
+                elif pl0 is not None and folds.map_collect(prog, pl0, pol) is not None:
+                    # `terms.into_iter().map(|t| t.recreate_variables(vars)).collect()` (possibly in a private helper)
+                    coll, prs = folds.map_collect(prog, pl0, pol)
+                    if strip(coll) != ("field", me, "SComplex.0") or not prs or not all(
+                            v[0] == "call" and v[1] == U.path and len(v[2]) == 2 and ie(v[2][0]) and strip(v[2][1]) == mp for v, ie in prs):
+                        ok, why = False, "the children become %s" % show(pl0)[:80]
+                    delegated = True
                 elif pl0 is not None and pl0 == ("field", me, "SComplex.0"):
                     ok, why = False, "the children are kept as they are: variables inside a complex term are not renamed"
                 pushes_seen = max(pushes_seen, npush)
